@@ -3,6 +3,7 @@ CONSTANTS
   Scope = "thorough"
   MemoFinalOnly = FALSE
   DedupeNeighbour = FALSE
+  LexicalClean = TRUE
   MaxSteps = 60
 CHECK_DEADLOCK FALSE
-INVARIANT NeverLexExplained
+INVARIANT ResultOK
